@@ -23,7 +23,7 @@ RULE = (
 ASSUMPTIONS = [
     "freshness is decided as 'the registered RNG / key generator is consulted once per file / per ECC block and its output is what is used'; entropy of os.urandom is out of scope",
 ]
-REQUIRED_CLASSES = ["agree.blocks>=2", "agree.keyless", "agree.ecc", "splice.body=K1", "splice.body=K2", "splice.ecc", "splice.same-tag", "passthrough.unopened>=1", "passthrough.unopened-ends00", "history.writes>=2", "history.keyless>=2"]
+REQUIRED_CLASSES = ["agree.blocks>=2", "agree.keyless", "agree.ecc", "splice.body=K1", "splice.body=K2", "splice.ecc", "splice.same-tag", "passthrough.unopened>=1", "passthrough.unopened-ends00", "rekey.enc-component", "history.writes>=2", "history.keyless>=2"]
 
 B2 = sut.B2
 
@@ -190,6 +190,41 @@ def check_passthrough(case, rec):
             raise Violation("re-written block %d does not unwrap: %s" % (i, e))
         if k != key:
             raise Violation("re-written block %d wraps %s, file key is %s" % (i, k.hex(), key.hex()))
+    # RE-KEY: the object that was read gets a different session key (attribute, or a new Bec2File around the same bf3file);
+    # after writing, the blocks, BOTH MACs of every entry and the ciphertext of encrypted components must all be under the NEW key
+    newkey = bytes(x ^ 0x5C for x in key)
+    for how in ("attribute", "rewrap"):
+        if how == "attribute":
+            g.session_key = newkey
+            obj = g
+        else:
+            obj = sut.Bec2File(g.bf3file, list(g.auth_blocks.values()), newkey)
+        with Recording(case_hash(case) + how.encode()):
+            try:
+                b3 = obj.to_binary(decs)
+            except Exception as e:
+                raise Violation("writing a read file under a new session key (%s) raised %s: %s" % (how, type(e).__name__, e))
+        hb3, pos3 = M.parse_bec2_header(b3)
+        try:
+            parsed3 = M.parse_body_strict(b3, pos3, newkey)
+        except M.Reject as e:
+            raise Violation("re-keyed file (%s) is not authenticated by the new session key: %s" % (how, e))
+        for c, p3 in zip(case["comps"], parsed3):
+            if c.get("enc"):
+                rec.cls("rekey.enc-component")
+                if p3["blob"][: len(c["blob"])] != c["blob"]:
+                    raise Violation("re-keyed file (%s): the encrypted component does not decrypt under the NEW session key (blocks and MACs use it): got %s.. expected %s.." % (
+                        how, p3["blob"][:16].hex(), c["blob"][:16].hex()))
+        for i in opened:
+            b = blocks[i]
+            tag, val = hb3[i]
+            try:
+                k3 = M.container_unwrap(b["crypto_key"], val)[-16:] if b["kind"] == "cust" else M.container_unwrap(M.code_key(b["code"]), val)[:16] if b["kind"] == "upd" else M.ecies_open(b["priv"], val[1:])
+            except M.Reject as e:
+                raise Violation("re-keyed block %d does not unwrap: %s" % (i, e))
+            if k3 != newkey:
+                raise Violation("re-keyed file (%s): block %d wraps %s, new session key is %s" % (how, i, k3.hex(), newkey.hex()))
+    g.session_key = key
     if b2[pos2:] != M.body([dict(desc=list(dict(c["desc"]).items()), blob=c["blob"], actual_len=c.get("actual_len") or len(c["blob"]), enc=bool(c.get("enc"))) for c in case["comps"]], pos2, key):
         raise Violation("body changed on rewrite")
 
